@@ -111,10 +111,20 @@ def c13_bypass_partial_word_flush(v, case):
 def c13_bypass_early_return_reorders(v, case):
     """LiteDRAMFIFO(with_bypass=True), DRAM word ratio > 1: the mode FSM returns to BYPASS as soon as its DRAM word counter
     is zero, although a complete DRAM word can still be waiting at the pre-converter's output (it is only counted when the
-    DRAM FIFO accepts it): the following stream words take the bypass and overtake it.  Nothing is lost: accepts only
-    witnesses where the output is a permutation of the input, in runs that never used the pump/drain states."""
-    return bool(v.get("bypass") and (v.get("ratio") or 1) > 1 and v.get("kind") == "output-stream-differs"
-                and v.get("output_is_permutation_of_input") and not v.get("visited_pump_or_drain_state"))
+    DRAM FIFO accepts it): the following stream words take the bypass and overtake it; in BYPASS the DRAM path's output
+    is disconnected, so when the stream then ends the overtaken words stay inside (at most one DRAM word plus one
+    partial word).  Nothing is invented or duplicated: accepts only witnesses where the output is a sub-multiset of the
+    input (a permutation when everything came out), in runs that never used the pump/drain states; a stall is accepted
+    only with the mode FSM in BYPASS and no more than 2*ratio - 1 stream words inside."""
+    if not (v.get("bypass") and (v.get("ratio") or 1) > 1 and not v.get("visited_pump_or_drain_state")):
+        return False
+    if not (v.get("output_is_permutation_of_input") or v.get("output_is_submultiset_of_input")):
+        return False
+    if v.get("kind") == "output-stream-differs":
+        return True
+    if v.get("kind") == "no-progress":
+        return v.get("fsm_state") == 0 and 0 < (v.get("words_still_inside") or 0) <= 2 * v["ratio"] - 1
+    return False
 
 
 # ------------------------------------------------------------------------------------------------ C14
